@@ -190,6 +190,27 @@ class RG:
         body.append({"k": "expr", "e": {"k": "id", "n": r.choice(rets)} if rets else self.lit("int")})
         return {"k": "def", "n": name, "params": params, "guarded": False, "guard": {"k": "bool", "v": True}, "b": body}
 
+    def loopescape(self, name, kind):
+        """a counted loop of the shape the optimizer compiles, whose counter's handle leaves the loop (returned from inside it) or
+        which is entered again while it runs (recursion from its body): every entry has its own counter"""
+        iid = lambda n: {"k": "id", "n": n}
+        lit = lambda v: {"k": "int", "v": v, "id": self.nid()}
+        i = self.fresh("i")
+        loop = lambda hi, body: {"k": "for", "i": {"k": "var", "n": i, "e": lit(0)}, "c": {"k": "bin", "op": "<", "l": iid(i), "r": lit(hi)},
+                                 "s": {"k": "inc", "l": iid(i)}, "b": body}
+        iff = lambda c, t: {"k": "if", "c": c, "t": t, "ei": [], "haselse": False, "f": []}
+        params = [{"n": "a0", "ty": ""}]
+        if kind == "ret":
+            body = [loop(4, [iff({"k": "bin", "op": "==", "l": iid(i), "r": iid("a0")}, [{"k": "ret", "e": iid(i)}])]), {"k": "ret", "e": lit(9)}]
+        else:
+            r_ = self.fresh("r")
+            rec = {"k": "call", "f": name, "a": [{"k": "bin", "op": "-", "l": iid("a0"), "r": lit(1)}]}
+            body = [{"k": "var", "n": r_, "e": lit(0)},
+                    loop(2, [iff({"k": "bin", "op": ">", "l": iid("a0"), "r": lit(0)}, [{"k": "casg", "op": "+=", "bop": "+", "l": iid(r_), "e": rec}]),
+                             {"k": "casg", "op": "+=", "bop": "+", "l": iid(r_), "e": {"k": "bin", "op": "+", "l": iid(i), "r": lit(1)}}]),
+                    {"k": "expr", "e": iid(r_)}]
+        return {"k": "def", "n": name, "params": params, "guarded": False, "guard": {"k": "bool", "v": True}, "b": body}
+
     def helpers(self):
         p = [{"n": "p", "ty": ""}]
         iid = {"k": "id", "n": "p"}
@@ -223,6 +244,17 @@ class RG:
             arg = [{"k": "int", "v": r.randint(0, 5), "id": self.nid()}] if np else []
             for _ in range(r.randint(3, 4)):
                 calls.append({"g": gi + 1, "b": [{"k": "expr", "e": {"k": "call", "f": name, "a": arg}}]})
+        if r.random() < 0.5:
+            # the counter of a compiled loop leaving the loop, or the loop entered again while it runs
+            kind = r.choice(["ret", "rec"])
+            name = self.fresh("le")
+            defs.append(self.loopescape(name, kind))
+            g = len(funs) + 1
+            call = lambda v: {"k": "call", "f": name, "a": [{"k": "int", "v": v, "id": self.nid()}]}
+            a, b = r.sample([0, 1, 2, 3], 2)
+            e = {"k": "bin", "op": "+", "l": call(a), "r": call(b)} if kind == "ret" else call(r.choice([1, 2]))
+            for _ in range(3):
+                calls.append({"g": g, "b": [{"k": "expr", "e": e}]})
         r.shuffle(calls)
         return segs + calls
 
